@@ -417,6 +417,19 @@ def parse_mir(text, crate):
             if not m and not is_promoted:
                 i += 1
                 continue
+            if not m and not re.search(r'\{\s*(//.*)?$', line):
+                # single-line constant:  const NAME: T = <rvalue>;
+                sm = re.match(r'^(?:const|static(?: mut)?) (.+?): (.*?) = (.*);\s*(//.*)?$', line)
+                if sm:
+                    f = Fn(crate, 'const ' + sm.group(1), [], sm.group(2))
+                    f.promoted = True
+                    try:
+                        f.blocks['bb0'] = [('assign', ('local', '_0'), parse_rvalue(sm.group(3)), None), ('return',)]
+                    except ParseError:
+                        f.blocks['bb0'] = [('unparsed', line, None)]
+                    fns.append(f)
+                i += 1
+                continue
             j = i + 1
             while j < n and lines[j] != '}':
                 j += 1
